@@ -115,6 +115,14 @@ def flow_triples(V, T, runs, D, outs):
             T.append(("C06:estimate[%d].m[%d] len(y)" % (j, i), len(ma["y"]), len(mb["y"])))
             for q, (ya, yb) in enumerate(zip(ma["y"], mb["y"])):
                 T.append(("C06:estimate[%d].m[%d].y[%d] is a released value only" % (j, i, q), ya, yb))
+    sa, sb = r0.get("synth_args", []), r1.get("synth_args", [])
+    T.append(("C06:same number of synthetic_data calls", len(sa), len(sb)))
+    for j, (a, b) in enumerate(zip(sa, sb)):
+        T.append(("C06:synthetic_data[%d] method" % j, str(a["method"]), str(b["method"])))
+        if (a["rows"] is None) != (b["rows"] is None):
+            T.append(("C06:synthetic_data[%d] rows given in one run only" % j, False, True))
+        elif a["rows"] is not None:
+            T.append(("C06:synthetic_data[%d] requested row count does not depend on the data" % j, a["rows"], b["rows"]))
     o0, o1 = outs
     T.append(("C06:output conforms to the original domain", str((tuple(o0.domain.attrs), tuple(o0.domain.shape))), str((tuple(D.domain.attrs), tuple(D.domain.shape)))))
     T.append(("C06:identical output", o0.df.values.tolist() == o1.df.values.tolist() and tuple(o0.domain.attrs) == tuple(o1.domain.attrs), True))
